@@ -28,9 +28,9 @@ from simkit.rng import seed_globals  # noqa: E402
 from simkit.world import InvalidScenario, Monitor, Violation, result, run_sim, seeded_uuid  # noqa: E402
 
 PROPERTY = "C09"
-RUNS = {"quick": 5_000, "thorough": 500_000}
-WALL = {"quick": 40, "thorough": 1500}
-BATCH = {"quick": 125, "thorough": 1000}
+RUNS = {"quick": 12_000, "thorough": 500_000}
+WALL = {"quick": 45, "thorough": 1500}
+BATCH = {"quick": 150, "thorough": 1000}
 SELFTEST_RUNS = 40
 RULE = (
     "each case is one primitive + 2-12 generated worker processes (<=6 acquire cycles each; for Bulkhead/ThreadPool "
